@@ -117,7 +117,7 @@ theorem elabField_equiv (O : Oracles) (f₁ f₂ : Bool) {a b : FieldSp} (h : Fi
 theorem elabClass_equiv (O : Oracles) {c₁ c₂ : ClassSp} (h : ClassSame c₁.fields c₂.fields)
     (h₁ : classSupported O tm c₁ = true) (h₂ : classSupported O tm c₂ = true) :
     elabClass O tm c₁ = elabClass O tm c₂ := by
-  simp only [elabClass, elabFields_same O c₁.future c₂.future h h₁ h₂]
+  simp only [elabClass, elabFields_same O c₁.scope c₂.scope c₁.future c₂.future h h₁ h₂]
 
 /-- Corollary: same field set (with the same Field per name), same `_required`, same defaults. -/
 theorem same_fields_and_required (O : Oracles) {c₁ c₂ : ClassSp} (h : ClassSame c₁.fields c₂.fields)
@@ -262,7 +262,8 @@ theorem counterexample_union_duplicate :
     `a: String = 0` is rejected at class definition, `a: String(default=0)` defines a class. -/
 theorem statement_false : ¬ C13_statement := by
   intro h
-  have := (h noRe ⟨false, [annF fStr (.eq (.int 0) 1)]⟩ ⟨false, [annF (.finst .str) (.kw (.int 0) 1)]⟩
+  have := (h noRe { future := false, fields := [annF fStr (.eq (.int 0) 1)] }
+    { future := false, fields := [annF (.finst .str) (.kw (.int 0) 1)] }
     (ClassSame.cons counterexample_falsy_default_kw.1 ClassSame.nil) rfl rfl).1
   revert this
   decide
@@ -360,6 +361,59 @@ theorem fixed_factory_builtin_class :
         = .ok (.field (.seqAny .list {}) false (some factoryTag))
     ∧ elabField noRe tm false (annF (.builtin .any) (.eqF (.int 100) 9)) = .ok (.field .anything false (some factoryTag)) :=
   ⟨⟨rfl, SameMeaning.scalar .builtin .cls .int, rfl, rfl⟩, rfl, rfl, rfl, rfl, rfl⟩
+
+/-! ### string annotations and the scope of the class statement -/
+
+/-- Evaluated annotations, the future import, and a quoted annotation without the import declare the same
+    field whether the class statement stands at module level, inside a function that defines the type names,
+    or one function deeper: `elabFieldAt` does not depend on these scopes. -/
+theorem scope_irrelevant (O : Oracles) (future : Bool) (fs : FieldSp) :
+    elabFieldAt .function O tm future fs = elabFieldAt .module O tm future fs
+    ∧ elabFieldAt .nested O tm future fs = elabFieldAt .module O tm future fs := by
+  simp [elabFieldAt]
+
+/-- Inside the supported region a string annotation (future import, or quoted and short) in any non-enclosing
+    scope elaborates like the evaluated annotation at module level. -/
+theorem string_annotation_equiv (O : Oracles) (sc : Scope) (future : Bool) (fs : FieldSp)
+    (h : fieldSupportedAt O tm sc future fs = true) :
+    elabFieldAt sc O tm future fs = elabField O tm false { fs with quoted := false } := by
+  simp only [fieldSupportedAt, Bool.and_eq_true] at h
+  rw [elabFieldAt_eq sc O future fs h.2]
+  rfl
+
+/-- the class `a: "Integer"` in a module with the future import, and `a: "<54 characters>"` without it -/
+def quotedInt : FieldSp := { name := "a", mode := .ann, ty := fInt, quoted := true }
+
+/-- finding `field-dropped:quoted-under-future-import` — `a: "Integer"` declares a field, but in a module with
+    `from __future__ import annotations` the stored text is that of a string literal, which evaluates to a `str`
+    again: no field is declared. -/
+theorem counterexample_quoted_future :
+    elabFieldAt .module noRe tm false quotedInt = .ok (.field (.integer {}) true none)
+    ∧ elabFieldAt .module noRe tm true quotedInt = .ok .dropped
+    ∧ elabFieldAt .module noRe tm true (annF fInt) = .ok (.field (.integer {}) true none) :=
+  ⟨rfl, rfl, rfl⟩
+
+/-- finding `field-dropped:quoted-annotation-50` — a quoted annotation of 50 or more characters (no future
+    import) is never evaluated and declares nothing. -/
+theorem counterexample_quoted_50 :
+    elabFieldAt .module noRe tm false { quotedInt with ty := longSp } = .ok .dropped
+    ∧ elabFieldAt .module noRe tm false (annF longSp) = elabFieldAt .module noRe tm true (annF longSp)
+    ∧ elabFieldAt .module noRe tm true (annF longSp) ≠ .ok .dropped := by
+  refine ⟨rfl, rfl, ?_⟩
+  intro h
+  cases h
+
+/-- finding `definition-error:string-annotation-enclosing-scope` — a string annotation whose type names are
+    locals of an ENCLOSING function, not captured by the function containing the class statement, raises
+    NameError at class definition (a limitation of string annotations, PEP 563); the evaluated annotation, and
+    a string annotation whose names are captured or builtin, work. -/
+theorem counterexample_enclosing_scope :
+    elabFieldAt .enclosing noRe tm true { annF fInt with unresolved := true } = .error (.other "NameError")
+    ∧ elabFieldAt .enclosing noRe tm false { quotedInt with unresolved := true } = .error (.other "NameError")
+    ∧ elabFieldAt .enclosing noRe tm false { annF fInt with unresolved := true } = .ok (.field (.integer {}) true none)
+    ∧ elabFieldAt .enclosing noRe tm true (annF fInt) = .ok (.field (.integer {}) true none)
+    ∧ elabFieldAt .function noRe tm true (annF fInt) = .ok (.field (.integer {}) true none) :=
+  ⟨rfl, rfl, rfl, rfl, rfl⟩
 
 /-! ### single-argument tuple forms -/
 
